@@ -314,6 +314,170 @@ theorem frame_bonds {s : Mol} {t : Template} {td : List Nat} {mp : List (Nat × 
   rw [bond?_eq_bget, hadj]
   exact this
 
+/-- the extended match of a successful run is injective on the replacement atoms and sends each of them to a patched atom -/
+theorem extended_match_injective {s : Mol} {t : Template} {td : List Nat} {mp : List (Nat × Nat)} {p : Patched}
+    (h : patcher s t td mp = .ok p) (hrn : (t.replAtoms.map (·.1)).Nodup)
+    (hinj : ∀ k1 ∈ t.replAtoms.map (·.1), ∀ k2 ∈ t.replAtoms.map (·.1), ∀ m, mget mp k1 = some m → mget mp k2 = some m → k1 = k2) :
+    (∀ k ∈ t.replAtoms.map (·.1), ∃ m, p.mapping.lookup k = some m ∧ m ∈ p.patchedIds) ∧
+    (∀ k1 ∈ t.replAtoms.map (·.1), ∀ k2 ∈ t.replAtoms.map (·.1), ∀ m, p.mapping.lookup k1 = some m →
+        p.mapping.lookup k2 = some m → k1 = k2) ∧
+    (∀ a ∈ p.patchedIds, ∃ n ∈ t.replAtoms.map (·.1), p.mapping.lookup n = some a) := by
+  obtain ⟨mx, st1, b2, atoms3, b3, b4, _, hmx, h1, _, _, _, _, hM, hP⟩ := patcher_stages h
+  obtain ⟨_, hinj'⟩ := replAtomsLoop_inj (maxKey_ge hmx) t.replAtoms hrn (inv1_init mx mp) hinj h1
+  obtain ⟨_, _, _, _, _, hplaced⟩ := replAtomsLoop_spec (maxKey_ge hmx) t.replAtoms hrn (inv1_init mx mp) hinj h1
+  have himg := replAtomsLoop_keys_img (maxKey_ge hmx) t.replAtoms hrn (inv1_init mx mp) hinj h1
+  rw [hM, hP]
+  refine ⟨?_, hinj', ?_⟩
+  · intro k hk
+    obtain ⟨⟨k', ra⟩, hmem, rfl⟩ := List.mem_map.1 hk
+    rcases hplaced k' ra hmem with ⟨m, sa, hmg, _, hmp, hat⟩ | ⟨_, _, m, _, _, hmp, hat⟩
+    · refine ⟨m, ?_, (lookup_isSome_iff_mem_keys _ _).1 (by simp [hat])⟩
+      rw [hmp]
+      simp only [mget] at hmg
+      split at hmg
+      · next v hv => split at hmg
+                     · cases hmg
+                     · cases hmg; exact hv
+      · cases hmg
+    · exact ⟨m, hmp, (lookup_isSome_iff_mem_keys _ _).1 (by simp [hat])⟩
+  · intro a ha
+    rcases himg a ha with h0 | h0
+    · simp at h0
+    · exact h0
+
+/-- **named_bonds_as_requested**: between the product atoms that two replacement atoms `n`, `m` became there is exactly
+the bond the replacement requests (its order; none when the replacement has no bond there), whatever the structure had
+between them before. Hypotheses: the replacement is a well-formed Python object (`ReplWF`: unique keys, symmetric bond
+dict, bonds only between its own atoms) and the match is injective on its atoms. -/
+theorem named_bonds_as_requested {s : Mol} {t : Template} {td : List Nat} {mp : List (Nat × Nat)} {p : Patched}
+    (h : patcher s t td mp = .ok p) (hnd : s.ids.Nodup) (hwf : ReplWF t)
+    (hinj : ∀ k1 ∈ t.replAtoms.map (·.1), ∀ k2 ∈ t.replAtoms.map (·.1), ∀ m, mget mp k1 = some m → mget mp k2 = some m → k1 = k2)
+    (n m n' m' : Nat) (hn : n ∈ t.replAtoms.map (·.1)) (hm : m ∈ t.replAtoms.map (·.1))
+    (hfn : p.mapping.lookup n = some n') (hfm : p.mapping.lookup m = some m') :
+    p.mol.bond? n' m' = (rorder t n m).map fun o => { order := o, stereo := none } := by
+  obtain ⟨himg, hinj', _⟩ := extended_match_injective h hwf.atoms_nodup hinj
+  obtain ⟨mx, st1, b2, atoms3, b3, b4, _, hmx, h1, h2, h3, h4, h5, hM, hP⟩ := patcher_stages h
+  rw [hM] at hfn hfm hinj'
+  have hrows := replAtomsLoop_rows t.replAtoms ⟨mp, mx, [], []⟩ st1 h1 ⟨by intro x y; simp [bget, List.lookup], rfl⟩
+  have h2' := replBonds_closed_form hwf hinj' hrows.1 h2 n m n' m' hn hm hfn hfm
+  have hnP : n' ∈ st1.atoms.map (·.1) := by
+    obtain ⟨x, hx, hxP⟩ := himg n hn
+    rw [hM, hfn] at hx; cases hx; rw [hP] at hxP; exact hxP
+  have hmP : m' ∈ st1.atoms.map (·.1) := by
+    obtain ⟨x, hx, hxP⟩ := himg m hm
+    rw [hM, hfm] at hx; cases hx; rw [hP] at hxP; exact hxP
+  obtain ⟨hadj, _, _⟩ := calcLoop_spec _ h5
+  rw [bond?_eq_bget, hadj]
+  show bget b4 n' m' = _
+  rw [structBonds_pp _ _ s.adj h4 n' m' hnP hmP, remainderAtoms_bget _ _ _ _ _ _ _ h3 n' hnP m', h2']
+
+/-- a template is the **identity on the match** `mp` of structure `s`: nothing is deleted, every replacement atom is an
+any-atom `A` that is matched and asks for the charge and radical state its matched atom already has, and the replacement's
+bonds are exactly the structure's bonds between the matched atoms (same orders) -/
+structure IdentityOn (s : Mol) (t : Template) (mp : List (Nat × Nat)) : Prop where
+  repl_wf : ReplWF t
+  inj : ∀ k1 ∈ t.replAtoms.map (·.1), ∀ k2 ∈ t.replAtoms.map (·.1), ∀ m, mget mp k1 = some m → mget mp k2 = some m → k1 = k2
+  atoms : ∀ n ra, (n, ra) ∈ t.replAtoms → ra.kind = .any ∧ ∃ m sa, mget mp n = some m ∧ s.atoms.lookup m = some sa ∧
+            ra.charge = sa.charge ∧ ra.radical = sa.radical
+  bonds : ∀ n m n' m', n ∈ t.replAtoms.map (·.1) → m ∈ t.replAtoms.map (·.1) → mget mp n = some n' → mget mp m = some m' →
+            rorder t n m = (s.bond? n' m').map (·.order)
+
+/-- **identity_template_id**: applying a template that is the identity on the match returns the input graph: the same atom
+numbers, for every atom the same element, isotope, charge and radical state (and the same hydrogen count for atoms the
+template does not name; named atoms get theirs recomputed by the valence rules), and between any two atoms the same bond
+(stereo marks stripped — stereo is outside this model). -/
+theorem identity_template_id {s : Mol} {t : Template} {mp : List (Nat × Nat)} {p : Patched}
+    (hwf : s.WF = true) (hid : IdentityOn s t mp) (h : patcher s t [] mp = .ok p) :
+    (∀ k, k ∈ p.mol.ids ↔ k ∈ s.ids) ∧
+    (∀ k sa, s.atoms.lookup k = some sa → ∃ a, p.mol.atoms.lookup k = some a ∧ a.z = sa.z ∧ a.isotope = sa.isotope ∧
+        a.charge = sa.charge ∧ a.radical = sa.radical ∧ (k ∉ p.patchedIds → sa.implH.isSome → a.implH = sa.implH)) ∧
+    (∀ a c, a ∈ s.ids → p.mol.bond? a c = (s.bond? a c).map strip) := by
+  obtain ⟨hnd, hsrc⟩ := wf_sound hwf
+  have hdel : p.deleted = [] := by
+    obtain ⟨_, _, _, _, _, _, hd, _⟩ := patcher_stages h
+    simp only [getDeleted, List.isEmpty_nil, if_true, Except.ok.injEq] at hd
+    exact hd.symm
+  have hrn := hid.repl_wf.atoms_nodup
+  obtain ⟨himg, hinj', hpre⟩ := extended_match_injective h hrn hid.inj
+  -- every replacement atom is matched, so the extended match agrees with the match on them
+  have hfinal : ∀ n ∈ t.replAtoms.map (·.1), ∃ m sa, mget mp n = some m ∧ s.atoms.lookup m = some sa ∧
+      p.mapping.lookup n = some m := by
+    intro n hn
+    obtain ⟨⟨n', ra⟩, hmem, rfl⟩ := List.mem_map.1 hn
+    obtain ⟨_, m, sa, hmg, hsa, _, _⟩ := hid.atoms n' ra hmem
+    rcases named_atoms_as_requested h hnd hrn hid.inj n' ra hmem with ⟨m2, sa2, a, hmg2, _, hmp, _, _⟩ | ⟨_, hnone, _⟩
+    · refine ⟨m, sa, hmg, hsa, ?_⟩
+      rw [hmp]
+      simp only [mget] at hmg
+      split at hmg
+      · next v hv => split at hmg
+                     · cases hmg
+                     · cases hmg; exact hv
+      · cases hmg
+    · rw [hmg] at hnone; cases hnone
+  have hPs : ∀ a ∈ p.patchedIds, a ∈ s.ids := by
+    intro a ha
+    obtain ⟨n, hn, hna⟩ := hpre a ha
+    obtain ⟨m, sa, _, hsa, hmp⟩ := hfinal n hn
+    rw [hna] at hmp; cases hmp
+    exact mem_ids_of_lookup hsa
+  refine ⟨?_, ?_, ?_⟩
+  · intro k
+    rw [product_ids h hnd k, hdel]
+    constructor
+    · rintro (hk | hk)
+      · exact hPs k hk
+      · exact hk.1
+    · intro hk; exact Or.inr ⟨hk, by simp⟩
+  · intro k sa hsa
+    by_cases hkP : k ∈ p.patchedIds
+    · obtain ⟨n, hn, hnk⟩ := hpre k hkP
+      obtain ⟨⟨n', ra⟩, hmem, rfl⟩ := List.mem_map.1 hn
+      obtain ⟨hkind, m, sa', hmg, hsa', hch, hrad⟩ := hid.atoms n' ra hmem
+      rcases named_atoms_as_requested h hnd hrn hid.inj n' ra hmem with ⟨m2, sa2, a, hmg2, hsa2, hmp, hat, hs⟩ | ⟨hk', _⟩
+      · rw [hmg] at hmg2; cases hmg2
+        rw [hsa'] at hsa2; cases hsa2
+        obtain ⟨m3, sa3, _, _, hmp3⟩ := hfinal n' hn
+        rw [hnk] at hmp3; cases hmp3
+        -- now k = m
+        have : k = m := by
+          have := hmg
+          simp only [mget] at this
+          rw [← hmp, hnk] at this
+          simp only at this
+          split at this
+          · cases this
+          · exact Option.some.inj this
+        subst this
+        rw [hsa'] at hsa; cases hsa
+        refine ⟨a, hat, ?_, ?_, ?_, ?_, fun hnp => absurd hkP hnp⟩
+        · rw [hs.1]; simp [requested, hkind]
+        · rw [hs.2.1]; simp [requested, hkind]
+        · rw [hs.2.2.1]; simp [requested, hkind, hch]
+        · rw [hs.2.2.2.1]; simp [requested, hkind, hrad]
+      · exact absurd hkind hk'
+    · obtain ⟨a, ha, h1, h2, h3, h4, h5⟩ := frame_atoms h hnd k sa hsa hkP (by rw [hdel]; simp)
+      exact ⟨a, ha, h1, h2, h3, h4, fun _ => h5⟩
+  · intro a c ha
+    by_cases hPP : a ∈ p.patchedIds ∧ c ∈ p.patchedIds
+    · obtain ⟨n, hn, hna⟩ := hpre a hPP.1
+      obtain ⟨m, hm, hmc⟩ := hpre c hPP.2
+      rw [named_bonds_as_requested h hnd hid.repl_wf hid.inj n m a c hn hm hna hmc]
+      obtain ⟨a', _, hmga, _, hmpa⟩ := hfinal n hn
+      obtain ⟨c', _, hmgc, _, hmpc⟩ := hfinal m hm
+      rw [hna] at hmpa; cases hmpa
+      rw [hmc] at hmpc; cases hmpc
+      rw [hid.bonds n m a c hn hm hmga hmgc]
+      cases s.bond? a c <;> simp [strip]
+    · have hrow : ∃ row, (a, row) ∈ s.adj := by
+        have hk : a ∈ s.adj.map (·.1) := by
+          simp only [Mol.WF, Bool.and_eq_true, decide_eq_true_eq, beq_iff_eq] at hwf
+          rw [hwf.1.2]; exact ha
+        obtain ⟨⟨a', row⟩, hmem, rfl⟩ := List.mem_map.1 hk
+        exact ⟨row, hmem⟩
+      rw [frame_bonds h hnd hsrc a c hrow (by rw [hdel]; simp) hPP, hdel]
+      simp
+
 /-! ## `Transformer.__call__` and the choice of matches -/
 
 theorem transformerCall_cons {s : Mol} {t : Template} {td : List Nat} {mp : List (Nat × Nat)}
